@@ -214,9 +214,9 @@ class Graph:
                     sb = f.block(s)
                     l = sb.get('label')
                     if l:
-                        lab = ('case', l.get('v'), l.get('qn'), l.get('k'))
+                        lab = ('case', l.get('v'), l.get('qn'), l.get('k'), cond)
                     else:
-                        lab = ('case', None, None, 'fallthrough-or-exit')
+                        lab = ('case', None, None, 'fallthrough-or-exit', cond)
                 for t in tails:
                     t.succ.append((first[s], lab))
         self.ctx_bounds[id(ctx)] = (first[f.entry], first[f.exit])
